@@ -1543,6 +1543,13 @@ impl Zeroconf {
                     #[cfg(feature = "verif-hooks")]
                     crate::verif::point("exit:cleaned");
                     self.status = DaemonStatus::Shutdown;
+
+                    // Commands queued behind `Exit` will never be executed. Drop
+                    // them now: the queue lives as long as any handle to the daemon
+                    // does, and while they sit in it their reply channels stay open,
+                    // leaving the callers waiting for a reply forever.
+                    while receiver.try_recv().is_ok() {}
+
                     return Some(command);
                 }
                 self.exec_command(command, false);
